@@ -213,17 +213,30 @@ fn percent_encode(s: &str, upper: bool) -> String {
 impl Canary {
     /// `rvK-<label>-<16 hex>+/=<8 hex>"q\`: the tail makes JSON-escaping and percent-encoding visible
     fn new(label: &'static str, rng: &mut Rng, awkward: bool) -> Canary {
-        let core = rng.hex(16);
-        let tail = rng.hex(8);
-        let value = if awkward {
-            format!("rvK-{label}-{core}+/={tail}\"q\\z")
-        } else {
-            format!("rvK-{label}-{core}+/={tail}")
+        // real keys come in shapes that code may treat differently: vendor prefixes, all-capital tokens that look
+        // like environment-variable names, ids
+        let shape = if awkward { 0 } else { rng.below(5) };
+        let mut core = rng.hex(16);
+        let mut tail = rng.hex(12);
+        let value = match shape {
+            0 if awkward => format!("rvK-{label}-{core}+/={tail}\"q\\z"),
+            0 | 1 => format!("rvK-{label}-{core}+/={tail}"),
+            2 => {
+                core = core.to_uppercase();
+                tail = tail.to_uppercase();
+                format!("RVK_{}_{core}_{tail}", label.to_uppercase())
+            }
+            3 => format!("sk-proj-{label}{core}T3BlbkFJ{tail}"),
+            _ => {
+                core = core.to_uppercase();
+                tail = tail.to_uppercase();
+                format!("AKIA{core}{tail}")
+            }
         };
         let mut needles: Vec<(&'static str, Vec<u8>)> = Vec::new();
         needles.push(("raw", value.as_bytes().to_vec()));
         needles.push(("core", core.as_bytes().to_vec()));
-        needles.push(("tail", format!("={tail}").into_bytes()));
+        needles.push(("tail", if value.contains('=') { format!("={tail}").into_bytes() } else { tail.clone().into_bytes() }));
         let esc = serde_json::to_string(&value).unwrap_or_default();
         let esc = esc.trim_matches('"').to_string();
         if esc != value {
